@@ -15,7 +15,11 @@ import (
 var (
 	ErrInvalidLength     = errors.New("invalid signature length")
 	ErrInvalidRecoveryID = errors.New("invalid signature recovery id")
+	ErrNonCanonicalS     = errors.New("invalid signature: s is in the upper half of the curve order")
 )
+
+// halfOrder is half the order of the secp256k1 group.
+var halfOrder = new(big.Int).Rsh(btcec.S256().N, 1)
 
 type Signer interface {
 	// Sign signs data with ethereum prefix (eip191 type 0x45).
@@ -53,6 +57,12 @@ func Recover(signature, data []byte) (*ecdsa.PublicKey, error) {
 	v := signature[64]
 	if v < 27 || v > 30 {
 		return nil, ErrInvalidRecoveryID
+	}
+	// (r, s, v) and (r, N-s, v^1) recover the same key. Sign only emits the
+	// form with s in the lower half, the other one is refused so that a
+	// signature has a single valid encoding.
+	if new(big.Int).SetBytes(signature[32:64]).Cmp(halfOrder) > 0 {
+		return nil, ErrNonCanonicalS
 	}
 	// Convert to btcec input format with 'recovery id' v at the beginning.
 	btcsig := make([]byte, 65)
